@@ -1,6 +1,6 @@
 #!/bin/sh
 # tools/eqtry.sh C12 /tmp/wt/EQ_C12/SEED  -> copy into /verif/seeded/EQ_C12, apply to /repo, run all quick checks, undo
-P=$1; SRC=$2; N=EQ_$P
+P=$1; SRC=$2; N=${3:-EQ}_$P
 mkdir -p /verif/seeded/$N
 [ -n "$SRC" ] && cp $SRC/* /verif/seeded/$N/
 git -C /repo status --porcelain --untracked-files=no | grep -q . && { echo "/repo dirty"; exit 3; }
